@@ -66,6 +66,8 @@ fn run_sequence(seq: &[Op], ctx: &WorkerCtx) -> ExecResult { run_sequence_from(s
 /// and b -> p1 are registered and one message has been sent to each; name operations at positions of parity `flip` go
 /// through the registry the node hands out (`Node::registry()`), the others through the Node API.
 fn run_sequence_from(seq: &[Op], primed: Option<usize>, ctx: &WorkerCtx) -> ExecResult {
+    // which error a failing process fails with depends on the history's shape: over the sweep every kind meets every scenario
+    crate::procs::set_failure_salt(seq.iter().map(|o| match o { Op::Fail(p) => 1 + *p, Op::Link(..) => 2, Op::Monitor(..) => 3, _ => 0 }).sum::<usize>() + seq.len());
     run_rt(async move {
         let mut res = ExecResult::default();
         let lw = match local_world(ctx).await { Ok(x) => x, Err(e) => { res.violations.push(("node could not start against the fake EPMD".into(), json!({"error": e}))); return res; } };
